@@ -184,7 +184,13 @@ class Ctx:
                 for err in ex.map(comp, jobs):
                     if err:
                         raise ToolError(err)
-            exe = os.path.join(objdir, name)
+            # the executable is private to (source tree, evidence directory, tier): runs against a scratch copy of the
+            # library or with their own evidence directory never replace each other's binaries
+            ctxtag = hashlib.sha1(('%s|%s|%s' % (REPO, EVID, self.tier)).encode()).hexdigest()[:8]
+            exedir = objdir if (REPO == '/repo' and EVID == os.path.join(ROOT, 'evidence') and self.tier == 'quick') \
+                else os.path.join(objdir, ctxtag)
+            os.makedirs(exedir, exist_ok=True)
+            exe = os.path.join(exedir, name)
             link = ['g++', '-o', exe] + objs + ['-pthread'] + \
                 (['-fsanitize=address,undefined'] if sanitize else []) + list(libs)
             if True:  # always relink (cheap); objects may have been rebuilt by another driver
